@@ -852,7 +852,7 @@ From CssV Require Gen.Prefs.
 Fixpoint prefix_for (u : str) (ns : ns_map) : option str :=          (* prefixForNamespaceURI: first match *)
   match ns with [] => None | (p, x) :: r => if eqs x u then Some p else prefix_for u r end.
 
-Definition pair_text (ns : ns_map) (u : nsuri) (name : str) : str :=
+Definition pair_prefix (ns : ns_map) (u : nsuri) : option str :=     (* None: the bare name is written *)
   let default := assoc_s [] ns in
   let same := match default, u with                                  (* DEFAULTURI == namespaceURI *)
               | Some d, UStr x => eqs d x
@@ -860,12 +860,14 @@ Definition pair_text (ns : ns_map) (u : nsuri) (name : str) : str :=
               | _, _ => false
               end in
   let falsy_default := match default with None | Some [] => true | _ => false end in
-  if same || (falsy_default && match u with UNone => true | _ => false end) then name
-  else (match u with
-        | UAny => s "*"
-        | UStr x => match prefix_for x ns with Some p => p | None => [] end
-        | UNone => []                                                (* IndexError -> '' *)
-        end) ++ s "|" ++ name.
+  if same || (falsy_default && match u with UNone => true | _ => false end) then None
+  else Some (match u with
+             | UAny => s "*"
+             | UStr x => match prefix_for x ns with Some p => p | None => [] end
+             | UNone => []                                           (* IndexError -> '' *)
+             end).
+Definition pair_text (ns : ns_map) (u : nsuri) (name : str) : str :=
+  match pair_prefix ns u with None => name | Some p => p ++ s "|" ++ name end.
 
 Definition out_item (ns : ns_map) (i : item) : OutModel.item :=
   let ty := Some (ityp_str (fst i)) in
@@ -881,3 +883,175 @@ Definition ser_result (ns : ns_map) (r : option result) : option str :=
 Definition select_ser (ns : ns_map) (ts : list (str * str)) : option str := ser_result ns (select ns ts).
 Definition sel_run (ns : ns_map) (glued : list stok) : option result := run ns glued.
 Definition sel_prepass (ts : list stok) : list stok := prepass ts.
+
+(* ================================================================== the seq of a grammar selector, explicitly
+   (what Selector.seq holds after parsing render sel), by structural recursion.  Items are listed in source order.
+   The only context dependent steps are local: inside functional-pseudo arguments (S is dropped after + / -, a "+"
+   replaces a preceding blank item) and a combinator replacing the descendant item of the whitespace before it. *)
+Definition it_comment (v : str) : item := (I_COMMENT, VComment v).
+Definition its_cm (c : list str) : list item := map it_comment c.
+Definition its_wsI (w : wsl) : list item :=                       (* whitespace ignored, comments kept *)
+  flat_map (fun x => match x with WS _ => [] | WC v => [it_comment v] end) w.
+Definition it_desc : item := (I_descendant, VStr (s " ")).
+Definition its_wsB (w : wsl) : list item :=                       (* after a compound: S = descendant combinator *)
+  map (fun x => match x with WS _ => it_desc | WC v => it_comment v end) w.
+
+Definition uri_of (ns : ns_map) (q : nsq) : nsuri :=
+  match q with
+  | NsDefault => match assoc_s [] ns with Some u => UStr u | None => UNone end
+  | NsAny => UAny
+  | NsNo => UStr []
+  | NsP p => match assoc_s p ns with Some u => UStr u | None => UNone end
+  end.
+Definition it_attname (ns : ns_map) (q : nsq) (n : str) : item :=
+  match q with
+  | NsDefault | NsNo => (I_attribute_selector, VStr n)
+  | _ => (I_attribute_selector, VPair (uri_of ns q) n)
+  end.
+Definition it_op (o : attop) : item :=
+  match o with
+  | OpEq => (I_equals, VStr (s "=")) | OpIncl => (I_includes, VStr (s "~=")) | OpDash => (I_dashmatch, VStr (s "|="))
+  | OpPre => (I_prefixmatch, VStr (s "^=")) | OpSuf => (I_suffixmatch, VStr (s "$=")) | OpSub => (I_substringmatch, VStr (s "*="))
+  end.
+Definition strval_d (v : str) : str := match strval v with Some x => x | None => [] end.
+Definition it_av (v : attv) : item :=
+  match v with AvI x => (I_attribute_value, VStr x) | AvS x => (I_STRING, VStr (strval_d x)) end.
+Definition its_attr (ns : ns_map) (a : attr) : list item :=
+  (I_attribute_start, VStr (s "[")) :: its_wsI (at_w1 a) ++ it_attname ns (at_ns a) (at_name a) :: its_wsI (at_w2 a) ++
+  match at_rest a with
+  | None => []
+  | Some (o, w3, v, w4) => it_op o :: its_wsI w3 ++ it_av v :: its_wsI w4
+  end ++ [(I_attribute_end, VStr (s "]"))].
+
+(* functional-pseudo arguments: the machine's own steps on the (reversed) seq *)
+Definition hS (q : list item) : bool := match q with (_, v) :: _ => ival_is v (s " ") | [] => false end.
+Definition hPM (q : list item) : bool :=
+  match q with (_, v) :: _ => ival_is v (s "+") || ival_is v (s "-") | [] => false end.
+Definition sq_argw (q : list item) (x : wtok) : list item :=
+  match x with
+  | WS _ => if match q with [] => false | _ => true end && negb (hPM q) then (I_S, VStr (s " ")) :: q else q
+  | WC v => it_comment v :: q
+  end.
+Definition sq_argws (w : wsl) (q : list item) : list item := fold_left sq_argw w q.
+Definition sq_et (t : etok) (q : list item) : list item :=
+  match t with
+  | EPlus => if hS q then (I_plus, VStr (s "+")) :: tl q else (I_plus, VStr (s "+")) :: q
+  | EMinus => (I_minus, VStr (s "-")) :: q
+  | EDim v => (I_DIMENSION, VStr v) :: q
+  | ENum v => (I_NUMBER, VStr v) :: q
+  | EStr v => (I_STRING, VStr (strval_d v)) :: q
+  | EId v => (I_IDENT, VStr v) :: q
+  end.
+Fixpoint sq_expr (e : expr) (q : list item) : list item :=
+  match e with [] => q | (t, w) :: r => sq_expr r (sq_argws w (sq_et t q)) end.
+
+Definition pseudo_ityp (p : pseudo) : ityp :=
+  match p with
+  | PsId dbl n => if dbl || is_legacy n then I_pseudo_element else I_pseudo_class
+  | PsFn dbl _ _ _ => if dbl then I_pseudo_element else I_pseudo_class
+  end.
+Definition colon_str (dbl : bool) : str := if dbl then s "::" else s ":".
+Definition sq_pseudo (p : pseudo) (q : list item) : list item :=
+  match p with
+  | PsId dbl n => (pseudo_ityp p, VStr (colon_str dbl ++ lower n)) :: q
+  | PsFn dbl n w e =>
+    (I_function_end, VStr (s ")")) :: sq_expr e (sq_argws w ((pseudo_ityp p, VStr (colon_str dbl ++ lower n ++ s "(")) :: q))
+  end.
+Definition its_pseudo (p : pseudo) : list item := rev (sq_pseudo p []).
+
+Definition it_tname (ns : ns_map) (neg : bool) (q : nsq) (n : str) : item :=
+  (if neg then I_negation_type_selector else I_type_selector, VPair (uri_of ns q) n).
+Definition it_univ (ns : ns_map) (q : nsq) : item := (I_universal, VPair (uri_of ns q) (s "*")).
+Definition its_negarg (ns : ns_map) (a : negarg) : list item :=
+  match a with
+  | NaType q n => [it_tname ns true q n]
+  | NaUniv q => [it_univ ns q]
+  | NaHash v => [(I_id, VStr v)]
+  | NaClass n => [(I_class, VStr (s "." ++ n))]
+  | NaAttr a => its_attr ns a
+  | NaPseudo p => its_pseudo p
+  end.
+Definition its_simple (ns : ns_map) (x : simple) : list item :=
+  match x with
+  | SHash v => [(I_id, VStr v)]
+  | SClass n => [(I_class, VStr (s "." ++ n))]
+  | SAttr a => its_attr ns a
+  | SPseudo p => its_pseudo p
+  | SNot w1 a w2 => (I_negation_start, VStr (s ":not(")) :: its_wsI w1 ++ its_negarg ns a ++ its_wsI w2 ++
+                    [(I_negation_end, VStr (s ")"))]
+  end.
+Definition its_head (ns : ns_map) (h : head) : list item :=
+  match h with HNone => [] | HType q n => [it_tname ns false q n] | HUniv q => [it_univ ns q] end.
+Definition its_compound (ns : ns_map) (c : compound) : list item :=
+  its_head ns (c_head c) ++ flat_map (fun p => its_cm (fst p) ++ its_simple ns (snd p)) (c_rest c) ++
+  match c_pe c with None => [] | Some (cm, p) => its_cm cm ++ its_pseudo p end.
+Definition ends_WS (w : wsl) : bool := match rev w with WS _ :: _ => true | _ => false end.
+Definition its_comb (c : comb) : list item :=
+  match c with
+  | CDesc w1 sp w2 => its_wsB w1 ++ it_desc :: its_wsB w2
+  | CChild w1 w2 => (if ends_WS w1 then removelast (its_wsB w1) else its_wsB w1) ++ (I_child, VStr (s ">")) :: its_wsI w2
+  | CAdj w1 w2 => (if ends_WS w1 then removelast (its_wsB w1) else its_wsB w1) ++ (I_adjacent_sibling, VStr (s "+")) :: its_wsI w2
+  | CSib w1 w2 => (if ends_WS w1 then removelast (its_wsB w1) else its_wsB w1) ++ (I_following_sibling, VStr (s "~")) :: its_wsI w2
+  end.
+Definition seq_of (ns : ns_map) (x : selector) : list item :=
+  its_wsI (s_lead x) ++ its_compound ns (s_first x) ++
+  flat_map (fun p => its_comb (fst p) ++ its_compound ns (snd p)) (s_more x) ++
+  (if ends_WS (s_trail x) then removelast (its_wsB (s_trail x)) else its_wsB (s_trail x)).
+Definition seq (r : option result) : list item := match r with Some (Accepted _ _ _ q) => q | _ => [] end.
+
+
+(* ================================================================== the serialised selector as TOKENS
+   what the tokenizer makes of ser_seq's text, written directly: a blank chunk of Out is one S token, the
+   remove-last-if-S of Out.append is drop_S.  (Tie: compared with Tokenizer(selectorText) on every accepted case.) *)
+Definition sp_tok : stok := mkS TS (s " ").
+Definition drop_S (out : list stok) : list stok :=
+  match out with t :: r => if is_t (sty t) TS then r else out | [] => [] end.
+Definition colon_tokens (v : str) : list stok :=                   (* ":x"  "::x"  ":f("  "::f(" *)
+  let body (r : str) := if last_is 40 r then [mkS TFUNCTION r] else [mkS TIDENT r] in
+  if starts (s "::") v then ch ":" :: ch ":" :: body (skipn 2 v) else ch ":" :: body (tl v).
+Definition prefix_tokens (p : str) : list stok :=
+  match p with
+  | [] => [ch "|"]
+  | _ => if eqs p (s "*") then [ch "*"; ch "|"] else [mkS TIDENT p; ch "|"]
+  end.
+(* "-" directly followed by a number / dimension / name is ONE token for the tokenizer ("- 2" is written "-2") *)
+Definition numstart (v : str) : bool :=
+  match v with c :: _ => (N.leb 48 c && N.leb c 57) || N.eqb c 46 | [] => false end.
+Definition namestart (v : str) : bool :=
+  match v with c :: _ => namechar c && negb (N.eqb c 45) && negb (N.leb 48 c && N.leb c 57) | [] => false end.
+Definition merge_minus (t : tty) (v : str) (can : bool) (out : list stok) : list stok :=
+  match out with
+  | m :: r => if can && is_t (sty m) TCHAR && eqs (sval m) (s "-") then mkS t (s "-" ++ v) :: r else mkS t v :: out
+  | [] => [mkS t v]
+  end.
+Definition ser_item (ns : ns_map) (out : list stok) (i : item) : list stok :=
+  match i with
+  | (typ, VPair u n) =>
+    let name := match typ with I_universal => mkS TCHAR n | _ => mkS TIDENT n end in
+    name :: match pair_prefix ns u with None => [] | Some p => rev (prefix_tokens p) end ++ out
+  | (_, VComment v) => mkS TCOMMENT v :: out
+  | (typ, VStr v) =>
+    match typ with
+    | I_descendant | I_S => sp_tok :: drop_S out
+    | I_child | I_adjacent_sibling | I_following_sibling | I_plus => sp_tok :: mkS TCHAR v :: sp_tok :: drop_S out
+    | I_function_end | I_negation_end | I_attribute_end | I_equals => mkS TCHAR v :: drop_S out
+    | I_minus | I_attribute_start => mkS TCHAR v :: out
+    | I_includes => mkS TINCLUDES v :: out
+    | I_dashmatch => mkS TDASHMATCH v :: out
+    | I_prefixmatch => mkS TPREFIXMATCH v :: out
+    | I_suffixmatch => mkS TSUFFIXMATCH v :: out
+    | I_substringmatch => mkS TSUBSTRINGMATCH v :: out
+    | I_STRING => mkS TSTRING (Gen.Quote.hstring v) :: out
+    | I_id => mkS THASH v :: out
+    | I_class => mkS TIDENT (tl v) :: ch "." :: out
+    | I_pseudo_class | I_pseudo_element | I_negation_start => rev (colon_tokens v) ++ out
+    | I_NUMBER => merge_minus TNUMBER v (numstart v) out
+    | I_DIMENSION => merge_minus TDIMENSION v (numstart v) out
+    | I_IDENT => merge_minus TIDENT v (namestart v) out
+    | _ => mkS TIDENT v :: out
+    end
+  end.
+Definition ser_acc (ns : ns_map) (q : list item) (out : list stok) : list stok := fold_left (ser_item ns) q out.
+Definition ser_tokens (ns : ns_map) (q : list item) : list stok := rev (drop_S (ser_acc ns q [])).
+Definition select_ser_tokens (ns : ns_map) (ts : list (str * str)) : list stok :=
+  ser_tokens ns (seq (select ns ts)).
